@@ -72,6 +72,7 @@ type Crash struct{}
 
 type Store struct {
 	salt     byte
+	epoch    int
 	next     int
 	refs     map[string]githash.Hash
 	refOrder []string
@@ -103,9 +104,15 @@ type Store struct {
 	OnCall func(method string)
 }
 
+// epoch distinguishes the stores created in one process, so that the
+// process-wide rsl entry cache (keyed by commit id) never confuses two stores.
+var epoch int
+
 func New(salt byte) *Store {
+	epoch++
 	return &Store{
 		salt:    salt,
+		epoch:   epoch,
 		refs:    map[string]githash.Hash{},
 		commits: map[string]*Commit{},
 		tags:    map[string]*Tag{},
@@ -149,6 +156,9 @@ func (s *Store) newID(kind byte) githash.Hash {
 	h := make([]byte, 20)
 	h[0] = 0xa0 | (s.salt & 0x0f)
 	h[1] = kind
+	h[2] = byte(s.epoch >> 16)
+	h[3] = byte(s.epoch >> 8)
+	h[4] = byte(s.epoch)
 	h[16] = byte(s.next >> 24)
 	h[17] = byte(s.next >> 16)
 	h[18] = byte(s.next >> 8)
